@@ -18,7 +18,7 @@ RULE = ("Layer A: for every operator, every (vmin, vmax) in (D u {None})^2 with 
         "(statistics on the first row group only); foreign statistics layouts newstyle (only min_value / max_value "
         "set, as other writers do) and halfopen (even row groups keep only max, odd ones only min) for int64; kinds "
         "dt_tz (zone-aware column and constants), dt_int96 (times='int96'), cat_ord (ordered categorical whose "
-        "category order is the reverse of the label order) with mode all; thorough: dt and cat (unordered) under all "
+        "category order is the reverse of the label order) and cat (unordered, categories in label order) with mode all; thorough: dt and cat under all "
         "three basic modes, both foreign layouts for every basic kind, the converted kinds also under rg0, int64 with"
         " statistics on some columns only (xonly: x; yonly: y). The int64 frames of the modes all / xonly / yonly are"
         " wide: they also hold y = 4 - x (int64, y = 2 where x is NULL) and a never-filtered all-NULL column z. "
@@ -60,6 +60,10 @@ def points(tier):
     # kinds whose bounds go through a conversion (zone, int96, category labels)
     for kind in ("dt_tz", "dt_int96", "cat_ord"):
         cells += [(kind, stats) for stats in (("all", "rg0") if thorough else ("all",))]
+    if not thorough:
+        # categories in label order (what pd.Categorical(values) gives): the writer may take another route to the
+        # bounds than for cat_ord
+        cells.append(("cat", "all"))
     for kind, stats in cells:
         for first in range(len(RG_CONTENTS)):
             pts.append({"layer": "B", "kind": kind, "stats": stats, "nrg": 3 if thorough else 2, "first": first})
@@ -229,7 +233,8 @@ def make_frame(kind, contents, wide=False):
         s = pd.Series(pd.DatetimeIndex(pd.to_datetime([None if v is None else v.tz_convert("UTC") for v in vals],
                                                       utc=True)).tz_convert(TZ))
     elif kind == "cat":
-        s = pd.Series(pd.Categorical(vals, categories=["e", "d", "c", "b", "a"]))
+        # categories in label order, as pd.Categorical(values) / astype('category') declare them (cat_ord: reversed)
+        s = pd.Series(pd.Categorical(vals, categories=["a", "b", "c", "d", "e"]))
     elif kind == "cat_ord":
         s = pd.Series(pd.Categorical(vals, categories=["e", "d", "c", "b", "a"], ordered=True))
     if not wide:
